@@ -528,8 +528,8 @@ class G:
                 a = self.clamp(2 ** 64 + r.choice([5, 9, 25, 125, 1])) * r.choice([1, -1])
             elif k == 2:
                 a = r.choice([1, -1]) * r.choice([5, 15, 25, 50, 125, 1125, 2827095, 5 ** 18, 5 ** 27])
-            op = r.choice(["ratio", "ratio", "hash"])
-            if op == "hash" or r.random() < 0.7:
+            op = r.choice(["ratio", "ratio", "hash", "hashfeed"])
+            if op in ("hash", "hashfeed") or r.random() < 0.7:
                 yield f"heven {op} {a} {p}"
             else:
                 kk = r.randrange(4)
